@@ -51,6 +51,7 @@ def run(S):
     range_cleanup(S, D)
     update_persisted(S, D)
     recovery(S, D)
+    public_cleanup(S, D)
 
 
 def _sid(v, E, mem):
@@ -398,3 +399,88 @@ def recovery(S, D):
               'a recovered monitor is returned only if the stored monitor, the listing, every name and the reading and application of EVERY newer update succeeded; any failure is an error, never a silently shorter history')
         S.no_panic(ids[2], E, pre, 'total')
         S.witness(ids[3], E, pre + ([want(0)] if N else []), got_some)
+
+
+def public_cleanup(S, D):
+    """C19.e: cleanup_stale_updates (the public clean-up over all stored monitors)."""
+    for N in ((1, 2) if S.tier == 'quick' else (1, 2, 3)):
+        tag = 'C19.e.n%d' % N
+        ids = [tag + '.bounded_by_stored_monitor', tag + '.nopanic', tag + '.witness']
+        if all(S._skip(o) for o in ids):
+            continue
+        f = afn(S, 'cleanup_stale_updates', 0)
+        E = S.engine(unwind=N + 1)
+        mem = {}
+        lazy = z3.Bool('lazy')
+        stored_id = [E.sym('stored_monitor%d.update_id' % i, 'u64') for i in range(N)]
+        recovered_id = [E.sym('recovered_monitor%d.update_id' % i, 'u64') for i in range(N)]
+        list_ok = z3.Bool('store.list_ok')
+        key_ok = [z3.Bool('key%d.parses' % i) for i in range(N)]
+        read_ok = [z3.Bool('store.read_monitor%d_ok' % i) for i in range(N)]
+        present = [z3.Bool('store.monitor%d_present' % i) for i in range(N)]
+        clean_ok = [z3.Bool('cleanup%d_ok' % i) for i in range(N)]
+        names = X.Seq([X.I(i, 'u64') for i in range(N)], N, 'String')
+        calls = []
+
+        def which(v, mem_):
+            while isinstance(v, X.Ref):
+                v = E.read_path(mem_[v.cell], v.path, mem_, True, 'key')
+            if isinstance(v, X.I) and isinstance(v.t, int):
+                return v.t
+            raise X.Unsupported('monitor key %r' % (v,))
+
+        def mon_future(kind):
+            def mk(argv, guard, mem_):
+                k = which(argv[-1], mem_)
+                mon = X.Adt('ChannelMonitor', {0: X.I((stored_id if kind == 'stored' else recovered_id)[k].t, 'u64')})
+                return X.En('Result', z3.If(read_ok[k], 0, 1), {0: [X.En('Option', z3.If(present[k], 1, 0), {1: [X.Tup([X.Opaque('best block'), mon])]})], 1: [X.Opaque('io error')]})
+            return mk
+
+        def mk_clean(argv, guard, mem_):
+            k = which(argv[1], mem_)
+            calls.append((X.zbool(guard), k, argv[2].t, X.zbool(argv[3].t)))
+            return X.En('Result', z3.If(clean_ok[k], 0, 1), {0: [X.UNIT], 1: [X.Opaque('io error')]})
+
+        def h_into_iter(E_, m, func, argv, guard, mem_, dty, caller):
+            return X.Tup([argv[0], X.I(0, 'usize')])
+
+        def h_next(E_, m, func, argv, guard, mem_, dty, caller):
+            r_ = argv[0]
+            st = E.read_path(mem_[r_.cell], r_.path, mem_, guard, 'next')
+            seq, k = st.fs[0], st.fs[1].t
+            if k >= len(seq.elems):
+                return X.En('Option', 0, {})
+            mem_[r_.cell] = E.write_path(mem_[r_.cell], r_.path, X.Tup([seq, X.I(k + 1, 'usize')]), mem_, guard, 'next')
+            return X.En('Option', 1, {1: [seq.elems[k]]})
+        for rx, h in future_stubs(E, [(r' as KVStore>::list$', lambda argv, guard, mem_: X.En('Result', z3.If(list_ok, 0, 1), {0: [names], 1: [X.Opaque('io error')]})),
+                                       (r'MonitorUpdatingPersisterAsyncInner::<.*>::maybe_read_monitor$', mon_future('stored')),
+                                       (r'MonitorUpdatingPersisterAsyncInner::<.*>::maybe_read_channel_monitor_with_updates$', mon_future('recovered')),
+                                       (r'MonitorUpdatingPersisterAsyncInner::<.*>::cleanup_stale_updates_for_monitor_to$', mk_clean)]) + [(re.compile(a), b) for a, b in [
+                (r'Vec<(?:std::string::)?String> as IntoIterator>::into_iter$', h_into_iter),
+                (r'IntoIter<(?:std::string::)?String> as Iterator>::next$', h_next),
+                (r'String as (?:std::ops::)?Deref>::deref$', lambda E_, m, func, argv, *a: argv[0]),
+                (r'MonitorName::from_str$', lambda E_, m, func, argv, guard, mem_, dty, caller: X.En('Result', z3.If(key_ok[which(argv[0], mem_)], 0, 1), {0: [X.Opaque('monitor name')], 1: [X.Opaque('io error')]})),
+                (r'ChannelMonitor::<.*>::get_latest_update_id$', lambda E_, m, func, argv, guard, mem_, dty, caller: X.I(_sid(argv[0], E, mem_), 'u64'))]]:
+            E.models.insert(0, (rx, h))
+        out, st = poll_once(S, E, f, {0: X.Opaque('persister'), 1: X.B(lazy)}, mem)
+        is_ok = X.zint(out.d) == 0
+        alive = list_ok
+        claim = []
+        per_key = {}
+        for g, k, bound, lz in calls:
+            per_key.setdefault(k, []).append((g, bound, lz))
+        for i in range(N):
+            reach = z3.And(alive, key_ok[i], read_ok[i])
+            want = z3.And(reach, present[i])
+            cs = per_key.get(i, [])
+            claim.append(z3.PbEq([(g, 1) for g, b_, l_ in cs], 1) == want if cs else z3.Not(want))
+            for g, b_, l_ in cs:
+                claim.append(z3.Implies(g, z3.And(b_ == stored_id[i].t, l_ == lazy)))
+            alive = z3.And(reach, z3.Or(z3.Not(present[i]), clean_ok[i]))
+        claim.append(is_ok == alive)
+        pre = [recovered_id[i].t > stored_id[i].t for i in range(N)]      # update files on top of the stored monitor: recovery gets further than the stored monitor
+        prove(S, ids[0], E, pre, z3.And(*claim),
+              'for every stored monitor the public clean-up removes updates up to the update id of the monitor AS STORED (not of the monitor recovery would build from it and the stored updates, which those updates are still needed for), once per monitor, passing the lazy flag on; a key that does not parse, a failed read or a failed clean-up ends the run with an error',
+              bounds='%d stored monitors; ids and store outcomes arbitrary' % N)
+        S.no_panic(ids[1], E, pre, 'total')
+        S.witness(ids[2], E, pre, is_ok)
